@@ -2593,7 +2593,8 @@ def suite_specs(ck):
         tasks += [('case', c) for c in grid_cases(6)]
         if ck.tier != 'quick':
             tasks += [('case', c) for c in grid_cases(1, exotic=False)]
-    for fam, n in (('clean', ck.scale(60, 1100)), ('clean_types', ck.scale(40, 800)), ('text', ck.scale(35, 600)),
+    # (quick: the grid and the seed families took over what 23 of the former 170 random specs were there for)
+    for fam, n in (('clean', ck.scale(50, 1100)), ('clean_types', ck.scale(32, 800)), ('text', ck.scale(30, 600)),
                    ('text_findings', ck.scale(10, 200)), ('full', ck.scale(25, 450))):
         for _ in range(n):
             draw = ck.rng.getrandbits(32)
